@@ -40,13 +40,20 @@ func Isolate(outDir string) bool {
 	if i := strings.Index(replay, "\n"); i >= 0 {
 		what, replay = replay[:i], replay[i+1:]
 	}
+	// what the child had already found before it died (SaveFailures) comes first: those witnesses
+	// are shrunk and say more than "the process died"
+	var fails []map[string]string
+	if b, rerr := os.ReadFile(filepath.Join(outDir, failuresFile)); rerr == nil {
+		json.Unmarshal(b, &fails)
+	}
+	fails = append(fails, map[string]string{
+		"signature": "process-crash",
+		"what":      fmt.Sprintf("the process died (%v) while: %s", err, what),
+		"replay":    replay,
+	})
 	stats := map[string]any{
 		"evaluations": 0, "distinct_nontrivial": 0, "distribution": map[string]int{"harness-crash": 1}, "samples": []string{},
-		"oracle_failures": []map[string]string{{
-			"signature": "process-crash",
-			"what":      fmt.Sprintf("the process died (%v) while: %s", err, what),
-			"replay":    replay,
-		}},
+		"oracle_failures": fails,
 	}
 	b, _ := json.MarshalIndent(stats, "", " ")
 	os.WriteFile(filepath.Join(outDir, "stats.json"), b, 0o644)
@@ -55,6 +62,19 @@ func Isolate(outDir string) bool {
 	os.WriteFile(filepath.Join(outDir, "impl.txt"), nil, 0o644)
 	os.Exit(0)
 	return false
+}
+
+const failuresFile = "failures-so-far.json"
+
+// SaveFailures: the child writes the oracle failures found so far (any JSON list of
+// {signature, what, replay}) next to the progress file, so that they survive a later crash
+func SaveFailures(fails any) {
+	if progressPath == "" {
+		return
+	}
+	if b, err := json.Marshal(fails); err == nil {
+		os.WriteFile(filepath.Join(filepath.Dir(progressPath), failuresFile), b, 0o644)
+	}
 }
 
 // Progress records what the child is about to run: first line a description, then the replay lines
